@@ -26,6 +26,8 @@ func dispatch(cmd string, args []string) int {
 		return cmdCrash(args)
 	case "C03child":
 		return cmdCrashChild(args)
+	case "C04", "C15":
+		return cmdConc(cmd, args)
 	default:
 		fmt.Println("unknown command", cmd)
 		return 2
